@@ -555,6 +555,17 @@ class Machine:
             return list(range(*args))
         if name in ("int", "float") and args and isinstance(args[0], (int, float, Mono)):
             return args[0]
+        if name == "int" and len(args) == 1 and isinstance(args[0], str) and args[0].lstrip("+-").isdigit():
+            return int(args[0])
+        if name == "str" and len(args) == 1 and isinstance(args[0], (int, str)) and not isinstance(args[0], bool):
+            return str(args[0])
+        if name == "sorted" and len(args) == 1 and isinstance(args[0], (list, tuple, dict)) and all(isinstance(x, (int, str)) for x in args[0]) \
+                and len({type(x) for x in args[0]}) <= 1:
+            key = kwargs.get("key")
+            if key is None:
+                return sorted(args[0])
+            if isinstance(key, Opaque) and key.text == "int" and all(isinstance(x, str) and x.lstrip("+-").isdigit() for x in args[0]):
+                return sorted(args[0], key=int)
         if short == "copy" and isinstance(e.func, ast.Attribute) and isinstance(recv, (dict, list)):
             return dict(recv) if isinstance(recv, dict) else list(recv)
         if short == "get" and isinstance(e.func, ast.Attribute):
